@@ -225,6 +225,13 @@ ToJSON(w)   == [x \in Weekdays |-> IF w[x] = Empty4 THEN Absent ELSE w[x]]
 FromJSON(j) == [x \in Weekdays |-> IF j[x] = Absent THEN Empty4 ELSE j[x]]
 ToYAML(w)   == w
 FromYAML(y) == y
+\* Decoding is a function of the document alone: whatever schedule the
+\* receiving object held before (a zero value, defaults, the previous
+\* configuration) does not show through.  The harness decodes every vector
+\* into a fresh and into an already populated receiver.
+DecodeJSONInto(prev, j) == FromJSON(j)
+DecodeYAMLInto(prev, y) == FromYAML(y)
+Receivers == {[x \in Weekdays |-> Empty4], [x \in Weekdays |-> R4(3600000, 7620000, 0, 0)]}
 
 \* ------------------------------------------------------------------ behaviour
 NoCase == [id |-> "none"]
@@ -319,6 +326,11 @@ VerdictsSound ==
                /\ ~(MS!MustReject(ser.r) /\ MS!WellFormed(ser.r))
                /\ (MS!Negative(ser.r) \/ MS!Inverted(ser.r) \/ MS!TooLong(ser.r) \/ MS!Ragged(ser.r)
                      => ser.verdicts = {"reject"})
+               \* a bound after 24:00 is not a time of that day, however short the range
+               /\ (ser.r.e > 86400000 \/ (ser.r.e = 86400000 /\ ser.r.en > 0) => ser.verdicts = {"reject"})
+               \* the only undecided ranges: start = end at a whole minute in (00:00, 24:00]
+               /\ (ser.verdicts = {"accept", "reject"} /\ ser.fill = "empty"
+                     => ser.r.s = ser.r.e /\ ser.r.s > 0 /\ ser.r.s <= 86400000 /\ ser.r.sn = 0 /\ ser.r.en = 0)
                \* any sub-millisecond excess is "not whole minutes"
                /\ (ser.r.sn # 0 \/ ser.r.en # 0 => ser.verdicts = {"reject"})
                /\ (ser.verdicts = {"accept"} => ser.r.e - ser.r.s <= 86400000 /\ ser.r.s >= 0)
@@ -328,4 +340,6 @@ RoundTripIdentity ==
         /\ FromJSON(ToJSON(w)) = w
         /\ FromYAML(ToYAML(w)) = w
         /\ FromYAML(ToYAML(FromJSON(ToJSON(w)))) = w
+        /\ \A prev \in Receivers : /\ DecodeJSONInto(prev, ToJSON(w)) = w
+                                   /\ DecodeYAMLInto(prev, ToYAML(w)) = w
 =============================================================================
